@@ -147,8 +147,8 @@ fn scalar_map(k: u8, x: f64) -> f64 {
     map_dispatch!(k, x)
 }
 
-pub const POWI_EXPS: [i32; 8] = [-2, -1, 0, 1, 2, 3, 4, 5];
-pub const POWF_EXPS: [f64; 6] = [2.0, 3.0, 0.5, -1.5, 2.5, 0.0];
+pub const POWI_EXPS: [i32; 12] = [-2, -1, 0, 1, 2, 3, 4, 5, 65, -77, 200, -300];
+pub const POWF_EXPS: [f64; 10] = [2.0, 3.0, 0.5, -1.5, 2.5, 0.0, f64::NAN, f64::INFINITY, f64::NEG_INFINITY, 1.0];
 
 pub fn all_forms() -> Vec<Form> {
     let mut f = vec![];
@@ -309,11 +309,29 @@ const MIS_SHAPES: [((usize, usize), (usize, usize)); 6] =
 const MIS_ASSIGN_SHAPES: [((usize, usize), (usize, usize)); 7] =
     [((2, 3), (3, 2)), ((1, 6), (6, 1)), ((4, 1), (2, 2)), ((2, 3), (1, 3)), ((3, 3), (1, 1)), ((2, 2), (2, 3)), ((2, 8), (4, 4))];
 
-fn run_form(f: &Form, a: &[f64], b: &[f64], s: f64, rows: usize, alt: usize) -> Result<Outc, String> {
+fn run_form(f: &Form, a: &[f64], b: &[f64], s: f64, rows: usize, alt: usize, alias: bool) -> Result<Outc, String> {
     let n = a.len();
     let cols = if n == 0 { 0 } else { n / rows };
     let mshape = if n == 0 { (0, 0) } else { (rows, cols) };
     match *f {
+        Form::VV(op, Own::RR) if alias => {
+            // both operands are the SAME object
+            let x = Vector::new(a.to_vec());
+            catch(move || {
+                let r = binop!(op, &x, &x);
+                Outc { res: bits(&r), shape: (1, n), a_after: Some(bits(&x)), b_after: Some(bits(&x)) }
+            })
+        }
+        Form::MM(op, Own::RR) if alias => {
+            let x = mk_matrix(a, rows);
+            catch(move || {
+                let r = binop!(op, &x, &x);
+                if (x.nrows, x.ncols) != mshape {
+                    panic!("csim: operand shape changed to {}x{}", x.nrows, x.ncols);
+                }
+                Outc { res: bits(&r.data), shape: (r.nrows, r.ncols), a_after: Some(bits(&x.data)), b_after: Some(bits(&x.data)) }
+            })
+        }
         Form::VV(op, own) => {
             let (x, y) = (Vector::new(a.to_vec()), Vector::new(b.to_vec()));
             catch(move || match own {
@@ -659,6 +677,21 @@ const U: f64 = 1.1102230246251565e-16;
 /// Check a reduction value against its definition within the any-order rounding bound.
 fn check_reduction(red: Red, a: &[f64], b: &[f64], rows: usize, got: f64) -> Result<(), String> {
     let n = a.len() as f64;
+    if matches!(red, Red::Prod | Red::ProdM | Red::MatProd) {
+        // order-independent IEEE facts about a product: a NaN factor, or an exact zero together
+        // with an infinity, give NaN; an exact zero among finite factors gives (+-)0
+        let has_nan = a.iter().any(|x| x.is_nan());
+        let has_zero = a.iter().any(|x| *x == 0.0);
+        let has_inf = a.iter().any(|x| x.is_infinite());
+        if (has_nan || (has_zero && has_inf)) && !got.is_nan() {
+            return Err(format!("prod = {:e} although the factors contain {}", got, if has_nan { "a NaN" } else { "an exact zero and an infinity" }));
+        }
+        // (only when no ordering of the factors can overflow on the way)
+        let growth: f64 = a.iter().filter(|x| **x != 0.0).map(|x| x.abs().log2().max(0.0)).sum();
+        if has_zero && !has_inf && !has_nan && growth < 1000.0 && got != 0.0 {
+            return Err(format!("prod = {:e} although a factor is exactly zero and all factors are finite", got));
+        }
+    }
     let finite_in = a.iter().all(|x| x.is_finite()) && (red != Red::Dot || b.iter().all(|x| x.is_finite()));
     if !finite_in {
         return Ok(()); // definition with non-finite inputs is not pinned down
@@ -784,7 +817,7 @@ fn is_matrix_form(f: &Form) -> bool {
 
 fn gen_val(r: &mut Sm, special: bool) -> f64 {
     if special && r.chance(0.12) {
-        return *r.pick(&[0.0, -0.0, f64::INFINITY, f64::NEG_INFINITY, f64::NAN, 5e-324, -1e-310, f64::MAX, f64::MIN_POSITIVE, -f64::MAX]);
+        return *r.pick(&[0.0, -0.0, f64::INFINITY, f64::NEG_INFINITY, f64::NAN, 5e-324, -1e-310, f64::MAX, f64::MIN_POSITIVE, -f64::MAX, 1.0, -1.0]);
     }
     match r.below(6) {
         0 => r.range(-9, 9) as f64,
@@ -862,7 +895,7 @@ impl Prop for C04 {
                 n,
                 rows,
                 init,
-                steps: vec![StepE { form, a: 0, b: 1, s: Fb(gen_val(&mut r, kind == 1)), alt: r.below(64) as usize, sub: 0 }],
+                steps: vec![StepE { form, a: 0, b: if matches!(form, Form::VV(_, Own::RR) | Form::MM(_, Own::RR)) && n % 2 == 1 { 0 } else { 1 }, s: Fb(gen_val(&mut r, kind == 1)), alt: r.below(64) as usize, sub: 0 }],
                 fills: Fill::ALL.to_vec(),
                 scribble: false,
                 junk: Hx(r.next()),
@@ -948,6 +981,10 @@ impl Prop for C04 {
                 b.truncate(stp.sub);
                 st.inc("sub_length_ops");
             }
+            let alias = stp.a % 3 == stp.b % 3 && stp.alt % 2 == 0 && matches!(f, Form::VV(_, Own::RR) | Form::MM(_, Own::RR));
+            if alias {
+                st.inc("aliased_operands");
+            }
             let n = a.len();
             let rows_here = if sub_active { 1 } else { case.rows };
             let res8 = n % 8;
@@ -956,7 +993,7 @@ impl Prop for C04 {
             let mut outs: Vec<(Fill, Result<Outc, String>)> = vec![];
             for (pi, fill) in case.fills.iter().enumerate() {
                 alloc_seam::set_policy(*fill, case.scribble, case.junk.0 ^ ((si as u64) << 8) ^ pi as u64);
-                let o = run_form(f, &a, &b, s, rows_here, stp.alt);
+                let o = run_form(f, &a, &b, s, rows_here, stp.alt, alias);
                 alloc_seam::reset_policy();
                 st.inc(&format!("fill.{}", fill.name()));
                 outs.push((*fill, o));
@@ -1206,7 +1243,7 @@ impl Prop for C04 {
         for f in Fill::ALL {
             v.push(format!("fill.{}", f.name()));
         }
-        for k in ["len.ge8", "len.lt8", "fault.fill_alloc", "fault.scribble_free", "fault.reject", "outcome.ok", "outcome.rejected", "runs.grid", "runs.program", "sub_length_ops"] {
+        for k in ["len.ge8", "len.lt8", "fault.fill_alloc", "fault.scribble_free", "fault.reject", "outcome.ok", "outcome.rejected", "runs.grid", "runs.program", "sub_length_ops", "aliased_operands"] {
             v.push(k.to_string());
         }
         v
